@@ -57,6 +57,9 @@ struct Workload {
   //       bitstream 2.2 (integer kd-tree method of the pre-2.3 layout)
   //   3 = kd-tree point cloud, one float position attribute, bitstream 2.2
   //       (float quantization method; payload from FloatPointsTreeEncoder)
+  //   4 = mesh coded with the deprecated predictive Edgebreaker traversal
+  //       (current bitstream version; the library's own, no longer selectable,
+  //       encoder implementation: legacy_eb.cc)
   int legacy = 0;
 
   Json ToJson() const;
